@@ -148,16 +148,22 @@ def kwargs_for(rec):
     return kw
 
 
-def replay(rec, typ, cls):
-    """Returns a list of (key, detail)."""
+def replay(rec, typ, cls, form='obj'):
+    """Returns a list of (key, detail).  form='str': the new span is given in the string spelling of the labels
+    (pandas period / datetime spans accept it wherever a label is looked up)."""
     a = rec['args']
     pd_default = cls == 'pdmodel'
     prefix = 'pandas-mixin-reindex-default' if pd_default else f'reindex-{cls}'
     fam = '' if pd_default else f'[{typ.family}]'
     found = []
     o, span = build(rec, typ, cls)
+    if form == 'str':
+        prefix += '-string-labels'
     new = new_span(typ, a['new'])
     new_labels = [typ.label(i, 'obj') for i in a['new']]
+    if form == 'str':
+        new = [typ.label(i, 'str') for i in a['new']]
+        new_labels = list(new)
     kw = {} if pd_default else kwargs_for(rec)
     # history before the reindex: label-slice and label reads on the original (whatever they cache must not leak)
     pre_slices = []
@@ -252,7 +258,7 @@ def replay(rec, typ, cls):
             for i, lid in enumerate(a['new']):
                 if a['new'].count(lid) == 1:
                     try:
-                        got = r[name, typ.label(lid, 'obj')]
+                        got = r[name, typ.label(lid, form)]
                     except Exception as e:
                         found.append((f'{prefix}{fam}-by-label-raised-{type(e).__name__}', {'name': name, 'label': repr(typ.label(lid, "obj"))}))
                         break
@@ -326,7 +332,11 @@ def main():
                 out['n'] += 1
                 out['by_class'][cls] = out['by_class'].get(cls, 0) + 1
                 out['by_type'][typ.name] = out['by_type'].get(typ.name, 0) + 1
-                for key, detail in replay(rec, typ, cls):
+                found_all = list(replay(rec, typ, cls))
+                if 'str' in typ.forms and cls != 'pdmodel' and len(set(rec['args']['new'])) == len(rec['args']['new']) and (idx % 2 == 0):
+                    out['n'] += 1
+                    found_all += list(replay(rec, typ, cls, form='str'))
+                for key, detail in found_all:
                     n = out['keys'].get(key, 0)
                     out['keys'][key] = n + 1
                     if n < 2:
